@@ -191,6 +191,11 @@ def runOpGeom (op : String) : Option (RdM String) :=
       match buildLoop pts with
       | none => return "build-err"
       | some l => return s!"{shLoop l} {shResWith l.areaR shF} {shResWith l.perimeterR shF} {shResWith l.centroid shV}"
+  | "poly.metrics" => some do
+      let pts ← rdPtsL (α := α)
+      match buildLoop pts with
+      | none => return "build-err"
+      | some l => return shResWith (Polygon.new l) fun pg => s!"{shF pg.area} {shV pg.normal} {shV pg.outerCentroid}"
   | "loop.open" => some do
       -- accessors on an open loop
       let pts ← rdPtsL (α := α); let q ← rdV
